@@ -166,16 +166,16 @@ Qed.
 Lemma pad_to_length {A} n (x : A) l : (length l <= n)%nat -> length (pad_to n x l) = n.
 Proof. intros H. unfold pad_to. rewrite app_length, repeat_length. lia. Qed.
 
-Theorem add_subtract_with_compare_correct fresh xs ys be s rs bor s' :
+Lemma add_subtract_with_compare_spec fresh xs ys be s rs bor s' :
   run fresh (add_subtract_with_compare xs ys be) s = Ok ((rs, bor), s') ->
-  ext (bc s) (bc s') /\ inputs (bc s') = inputs (bc s) /\ outputs (bc s') = outputs (bc s) /\
+  outputs (bc s') = outputs (bc s) /\
   length rs = Nat.max (length xs) (length ys) /\
-  forall asg xv yv, bvals (bc s) asg xs xv -> bvals (bc s) asg ys yv ->
-    exists rv bv, bvals (bc s') asg rs rv /\ bval (bc s') asg bor bv /\
+  forall c, ext (bc s') c -> forall asg xv yv, bvals c asg xs xv -> bvals c asg ys yv ->
+    exists rv bv, bvals c asg rs rv /\ bval c asg bor bv /\
       decode be rv = (decode be xv - decode be yv) mod 2 ^ Z.of_nat (Nat.max (length xs) (length ys)) /\
       bv = (decode be xv <? decode be yv).
 Proof.
-  intros H. pose proof (run_ext _ _ _ _ _ H) as Hx. unfold add_subtract_with_compare in H.
+  intros H. unfold add_subtract_with_compare in H.
   apply run_bind_inv in H as (a0 & s0 & Ha0 & H). apply nthP_inv in Ha0 as (Ea & ->).
   apply run_bind_inv in H as (b0 & s0 & Hb0 & H). apply nthP_inv in Hb0 as (Eb & ->).
   apply gate_tt_bind in H as (af & s1 & H & Hx1 & Htf & O1).
@@ -190,20 +190,19 @@ Proof.
   assert (length (pad_to n af (rev_if be ys)) = n) as Lb
     by (apply pad_to_length; rewrite rev_if_length; unfold n; lia).
   rewrite La in *.
-  split; [exact Hx|]. split; [apply ext_inputs, Hx|]. split; [congruence|].
-  split; [exact Len|].
-  intros asg xv yv Hxv Hyv.
+  split; [congruence|]. split; [exact Len|].
+  intros c Hc asg xv yv Hxv Hyv.
   pose proof (bvals_length _ _ _ _ Hxv) as Lxv. pose proof (bvals_length _ _ _ _ Hyv) as Lyv.
-  apply (bvals_ext _ _ _ _ _ Hx) in Hxv. apply (bvals_ext _ _ _ _ _ Hx) in Hyv.
   (* the constant-false gate *)
   destruct (Forall2_nth_error _ _ _ _ _ Hxv Ea) as (a0v & _ & Va0).
   destruct (Forall2_nth_error _ _ _ _ _ Hyv Eb) as (b0v & _ & Vb0).
-  apply (has_tt_ext _ _ _ _ _ _ Hx2) in Htf.
+  assert (ext (bc s1) c) as Hc1 by (eapply ext_trans; eassumption).
+  apply (has_tt_ext _ _ _ _ _ _ Hc1) in Htf.
   pose proof (has_tt_val _ _ _ _ _ _ _ _ Htf Va0 Vb0) as Vaf.
   replace (tt_fun tt_false a0v b0v) with false in Vaf by (destruct a0v, b0v; reflexivity).
   set (av := rev_if be xv ++ repeat false (n - length (rev_if be xs))).
   set (bv := rev_if be yv ++ repeat false (n - length (rev_if be ys))).
-  destruct (V _ (ext_refl _) asg av bv) as (rv & balv & Vr & Vb & E).
+  destruct (V _ Hc asg av bv) as (rv & balv & Vr & Vb & E).
   { unfold av, pad_to. apply Forall2_app; [apply bvals_rev_if, Hxv|apply bvals_repeat, Vaf]. }
   { rewrite <- Lb at 1. rewrite firstn_all.
     unfold bv, pad_to. apply Forall2_app; [apply bvals_rev_if, Hyv|apply bvals_repeat, Vaf]. }
@@ -223,4 +222,19 @@ Proof.
   rewrite decode_rev_if. split.
   - symmetry. apply mod_unique_range with (q := - Z.b2z balv); [exact RR|lia].
   - destruct balv; simpl in E; symmetry; [apply Z.ltb_lt|apply Z.ltb_ge]; lia.
+Qed.
+
+Theorem add_subtract_with_compare_correct fresh xs ys be s rs bor s' :
+  run fresh (add_subtract_with_compare xs ys be) s = Ok ((rs, bor), s') ->
+  ext (bc s) (bc s') /\ inputs (bc s') = inputs (bc s) /\ outputs (bc s') = outputs (bc s) /\
+  length rs = Nat.max (length xs) (length ys) /\
+  forall asg xv yv, bvals (bc s) asg xs xv -> bvals (bc s) asg ys yv ->
+    exists rv bv, bvals (bc s') asg rs rv /\ bval (bc s') asg bor bv /\
+      decode be rv = (decode be xv - decode be yv) mod 2 ^ Z.of_nat (Nat.max (length xs) (length ys)) /\
+      bv = (decode be xv <? decode be yv).
+Proof.
+  intros H. pose proof (run_ext _ _ _ _ _ H) as Hx.
+  apply add_subtract_with_compare_spec in H as (O & L & V).
+  split; [exact Hx|]. split; [apply ext_inputs, Hx|]. split; [exact O|]. split; [exact L|].
+  intros asg xv yv Hxv Hyv. apply V; [apply ext_refl|eapply bvals_ext; eassumption|eapply bvals_ext; eassumption].
 Qed.
